@@ -6,6 +6,7 @@ import GoSQLXModel.Driver.ExtractOp
 import GoSQLXModel.Driver.LexOp
 import GoSQLXModel.Driver.ExprOp
 import GoSQLXModel.Driver.PrintOp
+import GoSQLXModel.Driver.NameOp
 /-! Dispatch table of the line-protocol driver. Each op parses its payload, runs the executable
     model and prints a canonical one-line answer. -/
 namespace GoSQLXModel.Driver
@@ -21,6 +22,7 @@ def dispatch (op payload : String) : String :=
   | "lex" => lexOp payload
   | "expr" => exprOp payload
   | "print" => printOp payload
+  | "qname" => qnameOp payload
   | _ => "bad-op"
 
 end GoSQLXModel.Driver
